@@ -166,6 +166,12 @@ func DoBatchWithOptions(ctx context.Context, op Operation, r DoBatchRing, keys [
 		return err
 	}
 
+	if len(itemTrackers) == 0 {
+		// No keys means no replica call, so nothing would ever signal done or err below.
+		o.Cleanup()
+		return nil
+	}
+
 	tracker := batchTracker{
 		done: make(chan struct{}, 1),
 		err:  make(chan error, 1),
